@@ -1050,15 +1050,15 @@ class Node(object):
 #       node.nodeType = self.nodeType
         node.parentNode = None
         node.ownerDocument = self.ownerDocument
-        if deep:
-            if node.attributes is not None and self.attributes is not None:
-                node.attributes.update(self.attributes)
-            if self.hasChildNodes():
-                for x in self.childNodes:
-                    node.append(x.cloneNode(deep))
-        else:
-            if node.attributes is not None and self.attributes is not None:
-                node.attributes.update(self.attributes)
+        if node.attributes is not None and self.attributes is not None:
+            for key, value in list(self.attributes.items()):
+                if isinstance(value, Node) and value is self.childNodes:
+                    # the fragment that is this node's child list is not shared with the clone
+                    value = value.cloneNode()
+                node.attributes[key] = value
+        if deep and self.hasChildNodes():
+            for x in self.childNodes:
+                node.append(x.cloneNode(deep))
         return node
 
     def normalize(self, charsubs=None):
